@@ -263,9 +263,11 @@ func (trans *Transport) getConn(ctx context.Context) (conn *conn, err error) {
 		trans.lock.Lock()
 		if trans.conns[key] == conn {
 			delete(trans.conns, key)
-			cancel()
 		}
 		trans.lock.Unlock()
+		// whether or not the connection is still in the pool (Abort has already
+		// taken it out): its other loop has to end too
+		cancel()
 	}
 	go conn.Send(ctx, onExit)
 	go conn.Receive(ctx, onExit)
